@@ -37,6 +37,11 @@ var c17Progs = []string{
 	`mx := 9223372036854775807; mn := -9223372036854775807; f := func(p=1234567890123456789) { return p % 10 }; (mx % 7) + (mn % 7) + f() + a`,
 	`fl := 0.1; g := 3.0; h := 1000000000000000000000.0; (fl < g && g < h) ? a : b`,
 	`s := "tab\there \"quoted\" \\ done"; len(s) + a`,
+	// closures over a const / a named function of the enclosing function
+	`func scaler() { const factor = 3; return func(x) { return x * factor } }; scaler()(a)`,
+	`func outer(k) { func helper(x) { return x * 2 }; return func(y) { return helper(y) + k } }; outer(a)(b)`,
+	// more than ten functions in one scope (string ids .10 .11 sort before .2)
+	`f1 := func() { return 1 }; f2 := func() { return 2 }; f3 := func() { return 3 }; f4 := func() { return 4 }; f5 := func() { return 5 }; f6 := func() { return 6 }; f7 := func() { return 7 }; f8 := func() { return 8 }; f9 := func() { return 9 }; f10 := func() { return 10 }; f11 := func() { return 11 }; f12 := func() { return 12 }; f2() + f10() + f12() + a`,
 	// sibling functions in one scope, and siblings nested in a function
 	`func one(p) { return p + 1 }; func two(p) { return p * 2 }; func three(p) { return p - 3 }; one(a) + two(b) + three(a)`,
 	`mk := func() { inc := func(p) { return p + 1 }; dbl := func(p) { return p * 2 }; return [inc, dbl] }; fs := mk(); fs[0](a) + fs[1](b)`,
